@@ -1,5 +1,6 @@
 /- Helper lemmas for C02's protocol-level safety theorem (statements fixed in MysyncProofs/C02Safety.lean). -/
 import MysyncModel.Proto.Safety
+import MysyncProofs.Lemmas.QuorumSpec
 import Mathlib.Data.List.Nodup
 import Mathlib.Data.List.Perm.Subperm
 
@@ -72,7 +73,7 @@ theorem disjoint_length_le {α : Type} (l F B : List α) (hF : F.Nodup) (hB : B.
 
 theorem quorum_ge (sh : SwitchHelper) (l : List String) :
     (l.length : Int) - GetRequiredWaitSlaveCount sh l ≤ GetFailoverQuorum sh l := by
-  simp only [GetFailoverQuorum]
+  rw [QuorumSpec.quorum_spec]
   omega
 
 /-- A duplicate-free `F ⊆ l` of quorum size meets `m :: A` whenever `A` is a duplicate-free set of list members
